@@ -85,7 +85,7 @@ def run(ctx):
 
     # ---------------- R2
     dm = tc.methods["distributions"]
-    for stat, mu_bkg in (("qtilde", Poly()), ("q", Poly()), ("q0", Poly.const(1))):
+    for stat, mu_bkg, history in [(st_, mb_, h_) for st_, mb_ in (("qtilde", Poly()), ("q", Poly()), ("q0", Poly.const(1))) for h_ in ("fresh calculator", "after teststatistic at another mu")]:
         rec = {"fits": [], "ts": []}
 
         def fpf(args, kw):
@@ -101,7 +101,10 @@ def run(ctx):
 
         def tsf(args, kw):
             rec["ts"].append((to_poly(args[0]), [getattr(a, "name", str(a)) for a in args[1:]]))
-            return Obj(f"ts[{to_poly(args[0])};{args[1].name}]")
+            t_ = Obj(f"ts[{to_poly(args[0])};{args[1].name}]")
+            if kw.get("return_fitted_pars") is True:
+                return (t_, (Obj(f"fit_in_ts[{to_poly(args[0])};{args[1].name}]"), Obj(f"freefit_in_ts[{args[1].name}]")))
+            return t_
 
         def tqdm_(args, kw):
             x = args[0]
@@ -115,13 +118,21 @@ def run(ctx):
             "fixed_poi_fit": fpf, ".make_pdf": make_pdf, ".sample": sample, "tqdm": tqdm_, "EmpiricalDistribution": empirical,
             "get_test_stat": lambda args, kw: PyFunc(tsf, "teststat_func"), "dict": lambda args, kw: {},
         }
-        attrs = {"ntoys": Poly.atom("NTOYS"), "data": Obj("data"), "pdf": Obj("model"), "init_pars": Obj("init"), "par_bounds": Obj("bounds"), "fixed_params": Obj("fixed"), "test_stat": stat, "track_progress": False}
-        site = f"{CALC}::ToyCalculator.distributions[{stat}]"
+        # the calculator's state is whatever its constructor sets up (interpreted), then optionally a teststatistic
+        # call at ANOTHER mu: distributions(mu_test) must not pick up anything remembered from it
+        attrs = {}
+        site = f"{CALC}::ToyCalculator.distributions[{stat}; {history}]"
         try:
+            ienv = {"data": Obj("data"), "pdf": Obj("model"), "init_pars": Obj("init"), "par_bounds": Obj("bounds"), "fixed_params": Obj("fixed"), "test_stat": stat, "ntoys": Poly.atom("NTOYS"), "track_progress": False}
+            Interp(ienv, attrs, {}, cls_name=tc.name, externals=ext).run(A.strip_docstring(tc.methods["__init__"].node.body))
+            if history != "fresh calculator":
+                Interp({"poi_test": Poly.atom("mu_other"), "utils": Obj("utils")}, attrs, {}, cls_name=tc.name, externals=ext).run(A.strip_docstring(tc.methods["teststatistic"].node.body))
+                rec["fits"].clear()
+                rec["ts"].clear()
             it = Interp({"poi_test": Poly.atom("mu_test"), "track_progress": None, "utils": Obj("utils")}, attrs, {}, cls_name=tc.name, externals=ext)
             out = it.run(A.strip_docstring(dm.node.body))
         except Undecided as e:
-            ctx.unrecognised(r2, dm, f"distributions[{stat}]", f"not interpretable: {e}")
+            ctx.unrecognised(r2, dm, f"distributions[{stat}; {history}]", f"not interpretable: {e}")
             continue
         mu = Poly.atom("mu_test")
         want_sb = f"ED[ts[{mu};one(toys[pdf[fit[{mu}]]])]]"
@@ -130,12 +141,12 @@ def run(ctx):
         if got == [want_sb, want_b]:
             ctx.holds(r2, site, f"(s+b, b) = ({want_sb}, {want_b})")
         else:
-            ctx.violated(r2, dm, f"toy distributions [{stat}]", "signal/background toys, the fits that generate them, the tested mu or the wrapping distributions are mis-paired",
+            ctx.violated(r2, dm, f"toy distributions [{stat}; {history}]", "signal/background toys, the fits that generate them, the tested mu or the wrapping distributions are mis-paired (or taken from an earlier call at a different mu)",
                          expected=f"({want_sb}, {want_b})", found=str(tuple(got)))
         bad = [f for f in rec["fits"] if f[1] != ["data", "model", "init", "bounds", "fixed"]]
         bad += [t for t in rec["ts"] if t[1][1:] != ["model", "init", "bounds", "fixed"]]
         if bad:
-            ctx.violated(r2, dm, f"fit/statistic inputs [{stat}]", "a toy fit or toy statistic does not receive the calculator's (data, pdf, init_pars, par_bounds, fixed_params)", found=str(bad[0]))
+            ctx.violated(r2, dm, f"fit/statistic inputs [{stat}; {history}]", "a toy fit or toy statistic does not receive the calculator's (data, pdf, init_pars, par_bounds, fixed_params)", found=str(bad[0]))
         else:
             ctx.holds(r2, site + " inputs", f"{len(rec['fits'])} fits, {len(rec['ts'])} statistics with the calculator's inputs")
     # sample shape
@@ -175,8 +186,10 @@ def run(ctx):
     sm, lp = sim.methods["sample"], sim.methods["log_prob"]
     split_recv = [A.dotted(c.func.value) for c in A.calls_in(lp.node) if A.call_attr(c) == "split"]
     st_calls = [c for c in A.calls_in(sm.node) if A.call_attr(c) == "stitch"]
-    if not st_calls or not split_recv:
-        ctx.unrecognised(r3, sm, "sample", "stitch/split calls not found")
+    if not split_recv:
+        ctx.unrecognised(r3, lp, "log_prob", "no viewer split found in log_prob")
+    elif not st_calls:
+        ctx.violated(r3, sm, "sample layout", f"log_prob splits the data with {split_recv[0]} but sample does not assemble the constituents' samples through that viewer: pseudo-data are laid out differently from what the density expects whenever the viewer's index sets are not one contiguous run each (e.g. interleaved Gaussian and Poisson auxiliary data)", expected=f"{split_recv[0]}.stitch([...])", node=sm.node)
     else:
         c = st_calls[0]
         if A.dotted(c.func.value) == split_recv[0]:
